@@ -1,6 +1,8 @@
 import MV.Lemmas.Ring
 import MV.Props.C15Unbounded
 import MV.Props.C15Queues
+import MV.Props.C15History
+import MV.Props.C15Pump
 /-!
 # C15 — queues, ring buffers and unbounded channels are loss-free FIFOs
 
